@@ -554,7 +554,7 @@ func c03BackPatch(r *Run) {
 			return nil, false
 		}
 		_, fld, ok := fieldAddrOf(u.X)
-		return u, ok && fld.Name() == "buf"
+		return u, ok && fname(fld) == "buf"
 	}
 	// integer expressions as a*A + b*B + c, A = len(buf) between the type byte and the placeholder ("offset of the
 	// placeholder"), B = len(buf) after the children
@@ -820,7 +820,7 @@ func c03AppendOnly(r *Run) {
 			switch x := in.(type) {
 			case *ssa.Store:
 				_, fld, ok := fieldAddrOf(x.Addr)
-				if !ok || fld.Name() != "buf" || typeName(x.Addr.(*ssa.FieldAddr).X.Type()) != "ttlvWriter" {
+				if !ok || fname(fld) != "buf" || typeName(x.Addr.(*ssa.FieldAddr).X.Type()) != "ttlvWriter" {
 					return
 				}
 				n++
